@@ -31,6 +31,15 @@ def handle : List String → Option String
       let tab ← tableOf l
       let row ← tab[r]?
       pure (traceInts (chain { row := row, n := n, eightAbove := ea != 0 }))
+  | ["theta.summary", l, r, n, ea] => do
+      let l ← parseHexNat? l
+      let r ← parseHexNat? r
+      let n ← parseHexNat? n
+      let ea ← parseHexNat? ea
+      let tab ← tableOf l
+      let row ← tab[r]?
+      let s := chain { row := row, n := n, eightAbove := ea != 0 }
+      pure s!"{if s.err.isSome then 1 else 0} {toHex s.index} {toHex ((s.trace.map Ev.steps).sum)}"
   | "theta.trace.row" :: n :: ea :: _ :: xs => do
       let n ← parseHexNat? n
       let ea ← parseHexNat? ea
